@@ -43,7 +43,7 @@ AVAILABLE = ("REGISTERED", "REROUTED", "RETRY")
 FINAL = ("SUCCESS", "FAILED", "CONCURRENCY_CONTROLLED_FINAL")
 
 
-def run_workload(kind, scratch, name, slots, stop_at, budget):
+def run_workload(kind, scratch, name, slots, stop_at, budget, signum=None):
     wl = WORKLOADS[name]
     w = R.RunnerWorld(kind, scratch, slots)
     tasks_tree.LOG.clear()
@@ -62,7 +62,7 @@ def run_workload(kind, scratch, name, slots, stop_at, budget):
         if state["stopped_at"] is None and stop_at is not None and k >= stop_at and getattr(w.runner, "running", False):
             state["stopped_at"] = k
             state["at_stop"] = {i: w.raw_status(i) for i in w.all_invocations()}
-            w.runner.stop_runner_loop()
+            w.runner.stop_runner_loop(signum) if signum is not None else w.runner.stop_runner_loop()
         if stop_at is None and state["all_final_at"] is None:
             if all((w.raw_status(r) or ("?",))[0] in FINAL for r in roots):
                 state["all_final_at"] = k
@@ -177,6 +177,18 @@ def main(ctx: Ctx) -> int:
                     offset = ctx.seed % stride
                     n = 0
                     for k in range(offset, T + 1, stride):
+                        # the request comes as a plain call or as a termination signal (SIGTERM = 15): alternately in quick, both in thorough
+                        for signum in ((None, 15) if ctx.thorough else ((None, 15)[(k // stride) % 2],)):
+                          out = run_workload(kind, scratch, name, slots, k, T + 3000, signum)
+                          total += 1
+                          n += 1
+                          cls = out["key"] or ("returned:" + ",".join(sorted(set(out["statuses"]))))
+                          outcomes[cls] = outcomes.get(cls, 0) + 1
+                          if out["verdict"]:
+                            ctx.violation(out["key"], f"{kind}/{name}/{slots} slot(s), stop {'signal ' + str(signum) if signum else 'request'}: {out['verdict']}",
+                                          {"kind": "stop", "backend": kind, "workload": name, "slots": slots, "stop_at": k, "budget": T + 3000,
+                                           "signum": signum, "observed": out})
+                        continue
                         out = run_workload(kind, scratch, name, slots, k, T + 3000)
                         total += 1
                         n += 1
@@ -208,7 +220,7 @@ def replay(ctx: Ctx, path: str) -> int:
             for v in ctx.violations + ctx.known_hits:
                 print("REPRODUCED:", v["what"])
             return 0
-        print(json.dumps(run_workload(rp["backend"], scratch, rp["workload"], rp["slots"], rp["stop_at"], rp["budget"]), indent=1))
+        print(json.dumps(run_workload(rp["backend"], scratch, rp["workload"], rp["slots"], rp["stop_at"], rp["budget"], rp.get("signum")), indent=1))
     finally:
         world.rm_scratch(scratch)
     return 0
